@@ -187,7 +187,7 @@ class Gen:
             return a()
         if op == 'call':
             hs = [h for h in self.helpers if h[2] == 'R' and not h[3] and all(t == 'R' for t in h[1])]
-            if hs and not self.in_helper:
+            if hs and (not self.in_helper or self.p.get('helper_chain')):
                 h = rng.choice(hs)
                 self.features.add('call')
                 return f'{h[0]}({", ".join(a() for _ in h[1])})'
@@ -622,6 +622,8 @@ class Gen:
             self.features.add('helper_ctx')
         self.in_helper = True
         self.ret_type = 'R'
+        if self.p.get('reset_counter_per_function'):
+            self.counter = 0
         sc = _Scope()
         if mutates:
             args = ('L', 'R')
@@ -670,6 +672,8 @@ class Gen:
             if t in ('L', 'LL'):
                 self.list_len[nm] = None
         self.ret_type = rng.choice(self.p['ret_types'])
+        if self.p.get('reset_counter_per_function'):
+            self.counter = 0
         self.emit(0, '@fp.fpy')
         self.emit(0, f'def f({", ".join(names)}):')
         sc = self.block(sc, 1, self.p['max_depth'], self.p['max_stmts'])
